@@ -408,7 +408,8 @@ func judgeC07(c C07Case, pos int, r *c07Run) string {
 	if r.sendAfter.Nil {
 		return fmt.Sprintf("%s: a send after the cancellation succeeded", tag)
 	}
-	if !isCtxFlavoured(r.sendAfter, c.Deadline) && !r.sendAfter.EOF {
+	// (io.EOF is what a send reports on a stream that had already completed when the context ended)
+	if !isCtxFlavoured(r.sendAfter, c.Deadline) && !(r.sendAfter.EOF && r.trailerBeforeCancel) {
 		return fmt.Sprintf("%s: a send after the cancellation failed with %q, want the context's error", tag, r.sendAfter.Raw)
 	}
 	if c.ParkSend && r.parkedSend.Nil && r.parkedSend.Err() == nil && r.parkedSend.Raw == "" && !r.trailerBeforeCancel {
@@ -517,7 +518,7 @@ func execC07Open(t *testing.T, c C07Open) (v Verdict) {
 	byOK := 0
 	res := kit.Bubble(t, func() {
 		svc := kit.NewSvc()
-		svc.Stream("t", true, true, func(s grpcServerStream) error {
+		svc.Stream("t", c.Kind != kit.KindServer, c.Kind != kit.KindClient, func(s grpcServerStream) error {
 			mu.Lock()
 			hctx, hstarted = s.Context(), true
 			mu.Unlock()
